@@ -1,3 +1,50 @@
-/- C17 — property theorems: see below (being extended). -/
+/-
+  C17 — the protected-epoch list handed to a guard holder is its own and stable.
+  Proved: the vector published for an epoch `e` (by the forward that made `e` current) is strictly
+  descending, starts with `e` and contains `e − 1`; the lookup of an epoch in the chain returns the
+  vector written for it.  The unrestricted statement is false on the pinned tree (known finding F6,
+  `findings/F6_enter_epoch_stall.scen`): `EnterEpoch` publishes the epoch it read in a second step.
+-/
+import CppUtil.Proofs.EpochSeq
 import CppUtil.Gen.Thread
-import CppUtil.Model.TClient
+
+namespace CppUtil.Props
+open CppUtil CppUtil.Epoch
+
+/-- shape of the vector published for epoch `e = cur + 1` -/
+theorem c17_list_shape (cur : Nat) (pins : List Nat) (hp : ∀ p ∈ pins, p ≤ cur) :
+    let l := sortDescDedup ([cur + 1, cur] ++ pins)
+    Desc l ∧ l.head? = some (cur + 1) ∧ cur ∈ l := by
+  have hs := sortDescDedup_spec ([cur + 1, cur] ++ pins)
+  refine ⟨hs.1, ?_, (hs.2 cur).mpr (by simp)⟩
+  apply published_head
+  · simp
+  · intro y hy
+    simp only [List.cons_append, List.nil_append, List.mem_cons] at hy
+    rcases hy with rfl | rfl | hy
+    · omega
+    · omega
+    · have := hp y hy; omega
+
+/-- writing the vector of epoch `e` and reading it back through the same chain walk -/
+theorem c17_read_back (C : Consts) (e : Nat) (v : List Nat) (nodes : List PNode)
+    (hn : (findNode C e nodes).isSome = true) : getList C e (setList C e v nodes) = some v := by
+  induction nodes with
+  | nil => simp [findNode] at hn
+  | cons n rest ih =>
+    simp only [findNode] at hn
+    by_cases h : n.upper > upperOf C e
+    · simp only [h, ↓reduceIte] at hn
+      simp only [setList, h, ↓reduceIte, getList, findNode]
+      have := ih hn
+      simpa [getList] using this
+    · simp only [setList, h, ↓reduceIte, getList, findNode, Option.map_some, vecOf]
+      have hnone : List.find? (fun x => x.1 == lowerOf C e) (List.filter (fun x => x.1 != lowerOf C e) n.lists) = none := by
+        apply List.find?_eq_none.mpr
+        intro x hx
+        have := (List.mem_filter.mp hx).2
+        simp at this ⊢
+        exact this
+      simp [List.find?_append, hnone]
+
+end CppUtil.Props
